@@ -418,13 +418,13 @@ func run(c *vf.Ctx) {
 		}
 	}
 	c.Extra("git_invocations", gitx.Calls.Load())
-	c.Floor("raw trees decoded by go-git and listed by git", c.Counter("decode_git_confirmations"), c.N(250, 6000))
-	c.Floor("raw trees compared with the model", c.Counter("decode_cases_listable"), c.N(1000, 25000))
-	c.Floor("entry sets encoded", c.Counter("encode_sets"), c.N(1500, 25000))
-	c.Floor("entry sets git calls fsck-clean", c.Counter("encode_sets_valid"), c.N(300, 5000))
-	c.Floor("entry sets git calls unclean", c.Counter("encode_sets_invalid"), c.N(300, 5000))
-	c.Floor("trees written by go-git and fsck'ed", c.Counter("gogit_trees_fscked"), c.N(500, 8000))
-	c.Floor("mktree cross-checks of the serialisation model", c.Counter("mktree_confirmations"), c.N(300, 5000))
+	c.Floor("raw trees decoded by go-git and listed by git", c.Counter("decode_git_confirmations"), c.N(250, 2500))
+	c.Floor("raw trees compared with the model", c.Counter("decode_cases_listable"), c.N(1000, 10000))
+	c.Floor("entry sets encoded", c.Counter("encode_sets"), c.N(1500, 10000))
+	c.Floor("entry sets git calls fsck-clean", c.Counter("encode_sets_valid"), c.N(300, 2500))
+	c.Floor("entry sets git calls unclean", c.Counter("encode_sets_invalid"), c.N(300, 2500))
+	c.Floor("trees written by go-git and fsck'ed", c.Counter("gogit_trees_fscked"), c.N(500, 4000))
+	c.Floor("mktree cross-checks of the serialisation model", c.Counter("mktree_confirmations"), c.N(300, 2500))
 	c.Assume("git 2.39.5 ls-tree/mktree/fsck --strict are the reference; entry names longer than 4096 bytes are excluded from the encode domain because fsck.largePathname does not exist in git 2.39 (go-git follows git 2.54 and refuses them)")
 	c.Assume("'valid entry set' = the tree holding exactly that set (serialised in git's order) draws no error from git fsck --strict; 'fsck-clean' = no error line for the tree from git fsck --strict (warnings/info such as badFilemode for 100664 or gitignoreSymlink do not count)")
 	c.Assume("raw trees that git ls-tree itself cannot list are outside the decode domain (go-git's result on them is not judged)")
@@ -561,7 +561,7 @@ func decodeSide(c *vf.Ctx, g *gitx.Git, fname string, idLen int) bool {
 		return false
 	}
 	r := c.Rand("decode", fname)
-	n := c.N(700, 20000)
+	n := c.N(700, 8000)
 	cases := make([]rawCase, 0, n)
 	// a few fixed cases first (the C04 fact of DESIGN 5.0 must be rediscovered from the generator, these are structural corner cases only)
 	fixed := [][]byte{
@@ -1032,7 +1032,7 @@ func encodeSide(c *vf.Ctx, g *gitx.Git, fname string, idLen int) bool {
 		return false
 	}
 	r := c.Rand("encode", fname)
-	n := c.N(900, 16000)
+	n := c.N(900, 6000)
 	sets := make([]setCase, 0, n)
 	// every hostile name alone, as file, dir and symlink: the minimal witnesses
 	for _, nm := range hostileNames {
